@@ -56,43 +56,65 @@ def _ov_inc(ctx, q, qdir, overlays):
             overlays.insert(0, d)
 
 
+# loops that spin on a CAS / lock: one pass when operations do not interleave (the unwinding assertions check it)
+UW_LOCK = ["parsec_atomic_lock.0:1"]
+UW = {
+    "ap": UW_LOCK, "ip": UW_LOCK, "gd": UW_LOCK, "spq": UW_LOCK,
+    # mergesort of a ring of <=3: passes, merges per pass, run length, merge steps
+    "rnd": UW_LOCK + ["parsec_list_nolock_chain_sort_mergesort.0:3", "parsec_list_nolock_chain_sort_mergesort.1:4",
+                      "parsec_list_nolock_chain_sort_mergesort.2:3", "parsec_list_nolock_chain_sort_mergesort.3:3"],
+    "ll": ["parsec_lifo_pop.0:1", "parsec_lifo_pop.1:1", "parsec_lifo_chain.0:1", "parsec_lifo_chain.1:1"],
+    "llp": ["parsec_lifo_pop.0:1", "parsec_lifo_pop.1:1", "lifo_chain_sorted.0:1", "lifo_chain_sorted.1:1", "lifo_chain_sorted.2:1",
+            "lifo_chain_sorted.3:1", "lifo_chain_sorted.4:1"],
+    "lhq": UW_LOCK, "lfq": UW_LOCK, "ltq": UW_LOCK, "pbq": UW_LOCK,
+}
+
+
 def _q(m, nes=2, n1=2, n2=1, resched=False, tiers=("quick", "thorough"), qsize=None, two_vp=False, lhq_small=False, name=None,
-       unwind=8, extra_defs=(), timeout=2400, slow=False, dist=None):
+       unwind=6, extra_defs=(), timeout=2400, slow=False, dist=None, streams=None):
     defs = ["M=" + m, 'MODFILE="%s"' % UNIT[m], "NES=%d" % nes, "N1=%d" % n1, "N2=%d" % n2]
-    srcs = ["h.c", "repo:parsec/class/parsec_list.c"]
+    srcs = ["h.c"]
     patches = [CMP_PATCH, ES_PATCH]
-    units = ["parsec/class/list.h", "parsec/class/list_item.h", "parsec/mca/sched/sched_local_queues_utils.h"]
+    units = ["parsec/class/list.h", "parsec/class/list_item.h", "parsec/class/parsec_list.c", "parsec/mca/sched/sched_local_queues_utils.h"]
     stubs = ["parsec_barrier_wait -> counting no-op", "parsec_class_initialize -> static-table equivalent",
              "parsec_output* -> empty", "COMPARISON_VAL -> char* arithmetic (overlay)"]
-    unwindset = []
+    unwindset = list(UW[m]) + ["sched_%s_select.0:%d" % (m, nes + 1)]
+    enumerated = ["module " + m, "streams = %d" % nes, "ring sizes %d,%d" % (n1, n2)]
     if m in STRONG:
         defs.append("STRONG")
     if resched:
         defs.append("RESCHED")
+        enumerated.append("re-schedule of the first selected task (distance+1, same stream)")
     if two_vp:
         defs.append("TWO_VP")
     if dist is not None:
         defs += ["D1=%d" % dist[0], "D2=%d" % dist[1]]
+        enumerated.append("distances of the two schedule calls = %d,%d" % dist)
+    if streams is not None:
+        defs += ["E1=%d" % streams[0], "E2=%d" % streams[1], "SEL=%d" % streams[2], "ES_BY_POINTER"]
+        enumerated.append("submitting streams %d,%d; intermediate selects on stream %d" % streams)
     if m == "rnd":
         defs.append("NEED_RAND")
         stubs.append("rand -> nondeterministic non-negative int")
     if m in ("gd", "lhq", "lfq", "ltq", "pbq"):
-        srcs.append("repo:parsec/class/parsec_dequeue.c")
-        units.append("parsec/class/dequeue.h")
+        defs.append("NEED_DEQUEUE")
+        units += ["parsec/class/dequeue.h", "parsec/class/parsec_dequeue.c"]
     if m in ("ll", "llp"):
-        srcs.append("repo:parsec/class/parsec_lifo.c")
-        units.append("parsec/class/lifo.h")
+        defs.append("NEED_LIFO")
+        units += ["parsec/class/lifo.h", "parsec/class/parsec_lifo.c"]
         patches += LIFO_PATCHES
         stubs.append("lifo.h 128-bit CAS on the head -> field-wise compare-and-set, union alias member dropped (overlay)")
     if m in HB:
-        srcs.append("repo:parsec/hbbuffer.c")
+        defs += ["NEED_HB", "WIT_FAR"]
+        units += ["parsec/hbbuffer.c", "parsec/hbbuffer.h"]
         patches.append(HB_PATCH)
-        defs.append("WIT_FAR")
     if m == "ltq":
-        srcs.append("repo:parsec/maxheap.c")
+        defs.append("NEED_HEAP")
+        units += ["parsec/maxheap.c", "parsec/maxheap.h"]
     if m in WIRED:
         qs = qsize or 1
         defs += ["INIT_WIRED", "QSIZE=%d" % qs, "VP_HBSIZE=%d" % qs]
+        enumerated.append("bounded buffer size %d" % qs)
         stubs.append("flow_%s_init NOT executed: queues wired by the harness with the same helper calls" % m)
     if m == "lhq":
         defs += ["NEED_HWLOC", "HW_LEVELS=2"]
@@ -105,14 +127,19 @@ def _q(m, nes=2, n1=2, n2=1, resched=False, tiers=("quick", "thorough"), qsize=N
         else:
             defs.append("VP_HBSIZE=192")
             unwindset += ["parsec_hbbuffer_pop_best.0:194", "parsec_hbbuffer_push_all.1:194"]
-    info = {"symbolic": ["priority, task class (flags / nb_flows) and first input of every task", "submitting stream and distance of both schedule calls",
-                         "number of selects between them and the stream of each", "drain order is fixed: stream 0, 1, .. until NULL"],
-            "enumerated": ["module " + m, "streams = %d" % nes, "ring sizes %d,%d" % (n1, n2)] + (["re-schedule of the first selected task"] if resched else []) +
-                          (["buffer size %d" % (qsize or 1)] if m in WIRED else []),
+    info = {"symbolic": ["priority, task class (flags / nb_flows) and first input of every task",
+                         "number of selects between the two schedule calls (0..N1)"] +
+                        ([] if streams is not None else ["submitting stream of both schedule calls", "stream of every intermediate select"]) +
+                        ([] if dist is not None else ["distance of both schedule calls (0..2)"]),
+            "enumerated": enumerated + ["drain order: stream 0 until NULL, then stream 1, ..."],
             "stubs": stubs, "bounds": {"streams": nes, "tasks": n1 + n2},
             "functions": ["sched_%s_schedule" % m, "sched_%s_select" % m] + ([] if m in WIRED else ["flow_%s_init" % m])}
     nm = name or "%s_e%d_%d%d%s%s%s" % (m, nes, n1, n2, "_rs" if resched else "", "_2vp" if two_vp else "",
-                                         ("_q%d" % qsize) if qsize else ("_small" if lhq_small else "")) + (("_d%d%d" % dist) if dist is not None else "")
+                                         ("_q%d" % qsize) if qsize else ("_small" if lhq_small else ""))
+    if dist is not None:
+        nm += "_d%d%d" % dist
+    if streams is not None:
+        nm += "_s%d%d%d" % streams
     return Q(nm, srcs, defs=defs + list(extra_defs), unwind=unwind, unwindset=unwindset, object_bits=12, units=[UNIT[m]] + units, info=info,
              timeout=timeout, patches=patches, gen=_ov_inc, tiers=tiers, slow=slow)
 
@@ -122,7 +149,13 @@ def queries(ctx):
     for m in ["ap", "gd", "ip", "rnd", "ll", "llp"]:
         qs.append(_q(m))
     for d in [(0, 1), (1, 1), (1, 0)]:
-        qs.append(_q("spq", dist=d))
+        for st in [(0, 1, 1), (1, 0, 0)]:
+            qs.append(_q("spq", dist=d, streams=st))
+    qs.append(_q("lhq", lhq_small=True))
+    qs.append(_q("lhq", tiers=("thorough",)))
+    for m in WIRED:
+        qs.append(_q(m, qsize=1))
+        qs.append(_q(m, qsize=2))
     return qs
 
 
